@@ -225,8 +225,12 @@ class SignEval:
                 if all(s == POS for s in ss):
                     return POS
                 return NONNEG if all(s in (POS, NONNEG) for s in ss) else TOP
-            if name == "float" and len(e.args) == 1 and isinstance(e.args[0], ast.Constant) and e.args[0].value in ("inf", "+inf"):
-                return POS
+            if name == "float" and len(e.args) == 1 and isinstance(e.args[0], ast.Constant) and isinstance(e.args[0].value, str):
+                txt = e.args[0].value.strip().lower()
+                if txt in ("inf", "+inf", "infinity", "+infinity"):
+                    return POS
+                if txt in ("-inf", "-infinity"):
+                    return NEG
             if name == "len":
                 return NONNEG
             if self.depth > 0:
